@@ -41,7 +41,8 @@ def main(argv=None) -> int:
     rep = Report(prop, args.tier, root)
     try:
         idx = ProgramIndex(root)
-        rep.analysed.update({"root": root, "tree_digest": idx.digest, "files": idx.file_list(), **idx.census()})
+        rep.analysed.update({"root": root, "tree_digest": idx.digest, "files": idx.file_list(), **idx.census(),
+                             "source_normalisations_applied": list(getattr(idx, "normalised", []))})
         mod = importlib.import_module(f"lo_static.props.{PROPS[prop]}")
         mod.run(idx, rep, args.tier, selftest=not args.no_selftest)
         rc = rep.finish()
